@@ -38,8 +38,11 @@ Base == << BEntry("X", K0, 0, 1, TRUE, FALSE), BEntry("S", K0, 0, 1, FALSE, FALS
            BEntry("MS", <<1, 0, 0>>, 2, 2, FALSE, FALSE),    \* two parameters, degenerate spectrum
            \* a PARAMETRIC custom gate P(a) = diag(1, e^{ia}) instantiated where it happens to be self-adjoint (a = 0): the flag of
            \* a gate family must not be decided by the value of one instance
-           BEntry("PC", K0, 1, 1, FALSE, TRUE) >>
-BaseMat(g) == IF Base[g].custom THEN (IF Base[g].name = "A1" THEN A1 ELSE IF Base[g].name = "A2" THEN A2 ELSE GateAt("PHASE", Base[g].k)) ELSE GateAt(Base[g].name, Base[g].k)
+           BEntry("PC", K0, 1, 1, FALSE, TRUE),
+           \* the matrix A1 once more, handed over with EXACT algebraic entries ((-1)^(1/4), sqrt 2: complex numbers written without
+           \* the imaginary unit) instead of floating-point ones
+           BEntry("A1x", K0, 0, 1, FALSE, TRUE) >>
+BaseMat(g) == IF Base[g].custom THEN (IF Base[g].name \in {"A1", "A1x"} THEN A1 ELSE IF Base[g].name = "A2" THEN A2 ELSE GateAt("PHASE", Base[g].k)) ELSE GateAt(Base[g].name, Base[g].k)
 GMTab == TLCEval([g \in 1..Len(Base) |-> BaseMat(g)])
 \* replacing the parameters: the same gate at other grid angles (k2)
 AltK(g) == IF Base[g].np = 0 THEN K0 ELSE IF Base[g].np = 3 THEN <<3, 2, 1>> ELSE <<3, 0, 0>>
